@@ -368,7 +368,7 @@ def strip_generics(path):
     i = 0
     n = len(path)
     while i < n:
-        if path.startswith('::<', i):
+        if path.startswith('::<', i) and not path.startswith('::<impl ', i):
             j = find_matching(path, i + 2)
             i = j + 1
             continue
